@@ -1352,3 +1352,57 @@ Definition spec_on_model (raw : list N) (nbufs : N) : option (N * N) :=
   | Some sp, Done n e segs => if wf_superb sp then holds_super sp nbufs n e segs else Some (0, 99)
   | _, _ => Some (0, 98)
   end.
+
+(* ------------------------------------------------------------------ *)
+(* The behaviour before repair 8d6518b (finding F6) stays on record      *)
+(* ------------------------------------------------------------------ *)
+
+(* what gsoSplit stored before the repair: ^checksum(transport segment with a zero field,
+   pseudo header) verbatim; the current model stores mangle0 of it for UDP *)
+Definition old_transport_csum (sp : super) (s : list N) : N :=
+  let z := set16 s (s_cs sp + s_co sp) 0 in
+  not16 (checksum (sub z (s_cs sp) (len z))
+           (pseudoHeaderChecksumNoFold (proto_of sp)
+              (sub z (src_off sp) (src_off sp + alen sp))
+              (sub z (src_off sp + alen sp) (src_off sp + 2 * alen sp)) (len z - s_cs sp))).
+Definition old_segment (sp : super) (s : list N) : list N :=
+  set16 s (s_cs sp + s_co sp) (old_transport_csum sp s).
+
+Definition old_udp_zero_witness (raw : list N) (seg : nat) : bool :=
+  match parse_super raw with
+  | Some sp =>
+      wf_superb sp &&
+      match handle_virtio_read raw 8 65535 with
+      | Done _ _ segs =>
+          match nth_error segs seg with
+          | Some s => (old_transport_csum sp s =? 0) && (get16 s (s_cs sp + 6) =? 65535) &&
+                      (seg_check sp (N.of_nat seg) (old_segment sp s) =? 12)
+          | None => false
+          end
+      | Panic => false
+      end
+  | None => false
+  end.
+
+(* F6: on this input the pre-repair code put 0x0000 into the UDP checksum of segment 1 *)
+Theorem old_udp_checksum_nonzero_refuted : exists raw seg, old_udp_zero_witness raw seg = true.
+Proof. exists f6_raw, 1%nat. vm_compute. reflexivity. Qed.
+
+(* the same for gsoNoneChecksum *)
+Definition old_partial_csum (pp : partial) (o : list N) : N :=
+  let fld := p_cs pp + p_co pp in
+  let z := set16 o fld 0 in
+  not16 (checksum (sub z (p_cs pp) (len z)) (get16 (p_pkt pp) fld)).
+Definition old_udp_zero_none_witness (raw : list N) : bool :=
+  match parse_partial raw with
+  | Some pp =>
+      wf_partialb pp &&
+      match handle_virtio_read raw 1 65535 with
+      | Done 1 0 [o] => (old_partial_csum pp o =? 0) &&
+                        (partial_check pp (set16 o (p_cs pp + p_co pp) (old_partial_csum pp o)) =? 34)
+      | _ => false
+      end
+  | None => false
+  end.
+Theorem old_udp_checksum_nonzero_none_refuted : exists raw, old_udp_zero_none_witness raw = true.
+Proof. exists f6_none_raw. vm_compute. reflexivity. Qed.
